@@ -172,7 +172,11 @@ type target struct {
 // CheckObject walks an object spec against the struct that represents it.
 func (w *World) CheckObject(fm *FileModel, s *Spec, structName string, path string) []Issue {
 	var out []Issue
+	if len(s.AllOf) > 0 {
+		return w.CheckObject(fm, MergeAllOf(s), structName, path+"&")
+	}
 	if len(s.AnyOf) > 0 {
+		out = append(out, w.anyOfIssues(fm, s, path)...)
 		for i, b := range s.AnyOf {
 			if len(b.Props) > 0 {
 				name := ""
@@ -293,7 +297,7 @@ func (w *World) goBaseType(s *Spec) (typ string, nillable bool) {
 		}
 		return "[]" + et, true
 	case "object":
-		if len(s.Props) == 0 && len(s.AnyOf) == 0 {
+		if len(s.Props) == 0 && len(s.AnyOf) == 0 && len(s.AllOf) == 0 {
 			return "map[string]interface{}", true
 		}
 		return "NAMED", false
@@ -338,7 +342,7 @@ func (w *World) checkFieldType(fm *FileModel, p *Prop, F *Field, path string) []
 	// a definition reference (and a property-less object) is represented by a declared type whose
 	// underlying type is the base type; self-decoding format types must not be wrapped (a defined
 	// type does not inherit UnmarshalJSON)
-	viaDecl := (p.Spec.Ref != "" || (p.Spec.Kind == "object" && len(p.Spec.Props) == 0 && len(p.Spec.AnyOf) == 0)) && base != "NAMED" && !isFormatType(base)
+	viaDecl := (p.Spec.Ref != "" || (p.Spec.Kind == "object" && len(p.Spec.Props) == 0 && len(p.Spec.AnyOf) == 0 && len(p.Spec.AllOf) == 0)) && base != "NAMED" && !isFormatType(base)
 	if viaDecl {
 		ft, _ := stripPtr(F.Type)
 		td := fm.Types[ft]
@@ -440,7 +444,7 @@ func (w *World) checkValue(fm *FileModel, s *Spec, S *Struct, F *Field, path str
 	}
 	// nested object / array of objects: recurse
 	switch {
-	case s.Kind == "object" && len(s.Props) > 0:
+	case s.Kind == "object" && (len(s.Props) > 0 || len(s.AllOf) > 0 || len(s.AnyOf) > 0):
 		out = append(out, w.CheckObject(fm, s, ft, path)...)
 	case s.Kind == "array":
 		inner := s
@@ -620,3 +624,140 @@ func placeholderRE(s string) string {
 }
 
 var _ = absint.Lit
+
+// MergeAllOf is the specification of allOf for object schemas: the union of the
+// branches' properties, a property declared in several branches carrying the
+// constraints of all of them, and the union of the required lists.
+func MergeAllOf(s *Spec) *Spec {
+	m := &Spec{Kind: "object"}
+	byAtom := map[int]*Prop{}
+	reqAtoms := map[int]bool{}
+	labels := map[string]*Prop{}
+	for _, b := range s.AllOf {
+		br := b
+		if len(b.AllOf) > 0 {
+			br = MergeAllOf(b)
+		}
+		for _, p := range br.Props {
+			if p.Name == nil {
+				continue
+			}
+			labels[p.Label] = p
+			if ex := byAtom[p.Name.ID]; ex != nil {
+				// conjunction of the constraints
+				for _, kw := range p.Spec.Kw {
+					if !ex.Spec.Has(kw) {
+						ex.Spec.Kw = append(ex.Spec.Kw, kw)
+						if ex.Spec.Atoms == nil {
+							ex.Spec.Atoms = map[string]*absint.Atom{}
+						}
+						ex.Spec.Atoms[kw] = p.Spec.Atoms[kw]
+					} else {
+						ex.Spec.Kw = append(ex.Spec.Kw, kw) // stated twice: both limits must hold
+						ex.Spec.Atoms[kw+"#2"] = p.Spec.Atoms[kw]
+						ex.Spec.Twice = append(ex.Spec.Twice, kw)
+					}
+				}
+				if p.Required {
+					ex.Required = true
+				}
+				continue
+			}
+			np := *p
+			sp := *p.Spec
+			sp.Kw = append([]string{}, p.Spec.Kw...)
+			at := map[string]*absint.Atom{}
+			for k, v := range p.Spec.Atoms {
+				at[k] = v
+			}
+			sp.Atoms = at
+			np.Spec = &sp
+			byAtom[p.Name.ID] = &np
+			m.Props = append(m.Props, &np)
+		}
+	}
+	for _, b := range s.AllOf {
+		for _, l := range b.ReqOnly {
+			if p := labels[l]; p != nil && p.Name != nil {
+				reqAtoms[p.Name.ID] = true
+			}
+		}
+	}
+	for _, p := range m.Props {
+		if reqAtoms[p.Name.ID] {
+			p.Required = true
+		}
+	}
+	return m
+}
+
+// anyOfIssues: the merged type of an anyOf tries every branch type and fails only if all fail.
+func (w *World) anyOfIssues(fm *FileModel, s *Spec, path string) []Issue {
+	var out []Issue
+	if w.Cfg.OnlyModels {
+		return nil
+	}
+	n := len(s.AnyOf)
+	// the merged struct: has a field of a branch but no _i suffix
+	var merged *Struct
+	for _, b := range s.AnyOf {
+		if len(b.Props) == 0 {
+			continue
+		}
+		for _, st := range fm.StructsWithField(b.Props[0].Name, w.tagKey()) {
+			isBranch := false
+			for i := range s.AnyOf {
+				if strings.HasSuffix(st.Name, fmt.Sprintf("_%d", i)) {
+					isBranch = true
+				}
+			}
+			if !isBranch {
+				merged = st
+			}
+		}
+	}
+	if merged == nil {
+		return []Issue{{Rule: "A-ANYOF", Construct: "anyOf without a merged type", Msg: path + ": no struct stands for the anyOf as a whole"}}
+	}
+	for _, mn := range w.formats() {
+		m := fm.Methods[merged.Name+"."+mn]
+		if m == nil {
+			out = append(out, Issue{Rule: "A-ANYOF", Construct: "anyOf type without unmarshaler", Msg: fmt.Sprintf("%s: %s has no %s: no branch is ever tried", path, merged.Name, mn)})
+			continue
+		}
+		attempts, count := 0, ""
+		for _, r := range m.Rejects {
+			if r.Kind == "anyOf" {
+				count = r.Bound
+			}
+		}
+		body := skel.ExprString(fm.F.Fset, m.Decl.Body)
+		for i := 0; i < n; i++ {
+			if strings.Contains(body, fmt.Sprintf("_%d.%s(value)", i, mn)) {
+				attempts++
+			}
+		}
+		if attempts != n {
+			out = append(out, Issue{Rule: "A-ANYOF", Construct: "not every anyOf branch is tried", Msg: fmt.Sprintf("%s: %s.%s tries %d of the %d branches", path, merged.Name, mn, attempts, n)})
+		}
+		if count != fmt.Sprint(n) {
+			out = append(out, Issue{Rule: "A-ANYOF", Construct: "anyOf failure threshold is not the number of branches", Msg: fmt.Sprintf("%s: %s.%s fails when len(errs) == %s, but there are %d branches: with a smaller threshold a document one branch accepts is refused, with a larger one nothing is", path, merged.Name, mn, count, n)})
+		}
+		// every branch type must have the method that is called
+		for i := 0; i < n; i++ {
+			bt := fmt.Sprintf("%s_%d", merged.Name, i)
+			if fm.Types[bt] != nil && fm.Methods[bt+"."+mn] == nil {
+				out = append(out, Issue{Rule: "A-ANYOF", Construct: "anyOf branch type without the unmarshaler that is called on it", Msg: fmt.Sprintf("%s: %s has no %s", path, bt, mn)})
+			}
+		}
+	}
+	// union of properties
+	for i, b := range s.AnyOf {
+		for _, p := range b.Props {
+			if merged.FieldByTag(AtomText(p.Name), w.tagKey()) == nil {
+				out = append(out, Issue{Rule: "A-ANYOF", Construct: "merged anyOf type lacks a branch property", Msg: fmt.Sprintf("%s: property %s of branch %d has no field in %s", path, p.Label, i, merged.Name)})
+			}
+		}
+	}
+	return out
+}
